@@ -108,7 +108,7 @@ def run(tier, seed, replay):
             for v, srcs in semrun.build_sources(case, rnd, 1 if tier == "quick" else 2):
                 orders = list(itertools.permutations(srcs))
                 if tier == "quick":
-                    orders = rnd.sample(orders, 3)
+                    orders = rnd.sample(orders, min(3, len(orders)))
                 for oi, order in enumerate(orders):
                     units.append({"ci": ci, "v": "%s/order%d" % (v, oi), "srcs": list(order)})
         records = semrun.replay(gcases, rnd, units=units, prefix=False)
